@@ -223,7 +223,7 @@ fn main() {
                 writeln!(out, "{}", run_wrap_case(&format!("g{}w", i), &ctx, kind, p, &tail, &format!("kinds=wrap-{}", kind))).unwrap();
                 // ... and under an auto-escape mode: absolute (`esc-ident`) or against its neutral twin
                 let ek = ESC_KINDS[i % ESC_KINDS.len()];
-                let twin = if ek == "esc-ident" { vec![] } else { neutral_twin(&mut rng_tw, &prog, ek) };
+                let twin = if ek.starts_with("esc-") { vec![] } else { neutral_twin(&mut rng_tw, &prog, ek) };
                 writeln!(out, "{}", run_esc_case(&format!("g{}e", i), &ctx, ek, &prog, &twin, &format!("kinds=wrap-{}", ek))).unwrap();
             }
         }
